@@ -2,6 +2,6 @@
 export GOFLAGS=-mod=mod GOPROXY=off GOSUMDB=off GOTOOLCHAIN=local
 export VERIF_ROOT="${VERIF_ROOT:-$(cd "$(dirname "${BASH_SOURCE[0]}")" && pwd)}"
 export VERIF_CACHE="$VERIF_ROOT/.cache"
-export GOCACHE="$VERIF_CACHE/gocache"
+export GOCACHE="${VERIF_GOCACHE:-/verif/.cache/gocache}"
 export GO=go1.26.8
 export PATH=/opt/veriftools/go1.26.8/bin:$PATH
